@@ -426,7 +426,7 @@ func runC02Exhaustive(c *fw.Ctx, e int64) {
 }
 
 func init() {
-	prC02b := &Profile{Sets: defaultSets, Kinds: validKinds, ValidOnly: true, Zoo: true}
+	prC02b := &Profile{Sets: defaultSets, Kinds: validKinds, ValidOnly: true, Zoo: true, Repeat: true}
 	quickRandom, thoroughRandom := int64(300000), int64(3000000)
 	quickPoly, thoroughPoly := int64(20000), int64(300000)
 	cases := func(t string) int64 {
